@@ -243,7 +243,15 @@ func (nl *NodeList) RemoveNodes(ids []string) {
 		}
 	}
 
+	newRootElements := []string{}
+	for _, id := range nl.RootElements {
+		if _, ok := idDict[id]; !ok {
+			newRootElements = append(newRootElements, id)
+		}
+	}
+
 	nl.Nodes = newNodeList
+	nl.RootElements = newRootElements
 	nl.cleanEdges()
 }
 
